@@ -96,7 +96,7 @@ func c13Check(ctx *Ctx, idx int, cs c13Case) {
 						what = "the multiset of sub-requests"
 					}
 				}
-				ctx.Rep.Fail(hx.Failure{Kind: "property-fails", Class: c13Class(cs, what), Detail: fmt.Sprintf("run %d of the same operation differs from run 0 in %s", runs-1, what), Case: full,
+				ctx.Rep.Fail(hx.Failure{Kind: "property-fails", Class: c13ClassPin(cf, full, what), Detail: fmt.Sprintf("run %d of the same operation differs from run 0 in %s", runs-1, what), Case: full,
 					Impl: map[string]interface{}{"run0": first, "run": o}, Index: idx})
 				return
 			}
@@ -134,8 +134,25 @@ func c13Check(ctx *Ctx, idx int, cs c13Case) {
 	}
 }
 
-func c13Class(cs c13Case, what string) string {
+// c13Class: node(id:) roots are scrubbed by whichever type Go's map iteration yields first (the
+// payload carries no __typename): the presence of the helper `id` in data varies between runs.
+func c13Class(cf *coreFed, cs c13Case, what string) string {
+	doc, op, err := loadOp(cf.Merged.Schema, cs.Query, cs.OpName)
+	if err != nil {
+		return ""
+	}
+	if analyseOp(cf.Merged.Schema, doc, op).NodeRoot && what == "data" {
+		return "node-root-scrub-order"
+	}
 	return ""
+}
+
+func c13ClassPin(cf *coreFed, cs c13Case, what string) string {
+	c := c13Class(cf, cs, what)
+	if c != "" {
+		pinWitness("C13", c, cs.coreCase)
+	}
+	return c
 }
 
 func min(a, b int) int {
@@ -170,6 +187,16 @@ func runC13(ctx *Ctx) error {
 			cs.DelaySeed = r.U64()%1000 + 1
 		}
 		c13Check(ctx, 100+k, cs)
+	}
+	// node(id:) roots: known to depend on map order (open finding); anything else must not
+	for k := 0; k < cases/5; k++ {
+		r := ctx.Rand.Fork()
+		cc, ok := genStreamCase(r, coreStreams[5])
+		if !ok {
+			continue
+		}
+		ctx.Rep.Count("stream:node-root")
+		c13Check(ctx, 500000+k, c13Case{coreCase: cc, Repeats: repeats * 2})
 	}
 	return nil
 }
